@@ -153,7 +153,7 @@ def slot_queries(pid, entries, quickmax, thoroughmax, extra=None, nmin=1, extra_
 @prop("C03")
 def c03():
     return slot_queries("C03", ["vh_delete_insert"], 3, 4, extra={"NSPARE": 2}) + slot_queries("C03", ["vh_delete_putcopy"], 3, 4, nmin=2) + slot_queries("C03", ["vh_reverse", "vh_delete_gc", "vh_insert", "vh_put_copy", "vh_temp_copy", "vh_next", "vh_append", "vh_associate"], 3, 5) + \
-           [Q("setglyph", "slots.cpp", "vh_setglyph", {"NS": 1}, unwind=8)]
+           [Q("setglyph", "slots.cpp", "vh_setglyph", {"NS": 1}, unwind=8), Q("slot_index", "slots.cpp", "vh_slot_index", {"NS": 1}, unwind=8)]
 
 # ------------------------------------------------------------------------------------------- C12
 META["C12"] = {
@@ -538,6 +538,7 @@ def frozen_queries(pid):
 @prop("C08")
 def c08():
     return frozen_queries("C08") + [Q("lazy_glyph", "lazy.cpp", "vh_lazy_glyph", {"NG": 3}, unwind=8, stubs=["_ZNK9graphite210GlyphCache6Loader10read_glyphEtRNS_9GlyphFaceEPi"])] + \
+           [x for x in QUERIES["C02"]() if x.name.startswith("slot_attr")] + \
            [Q(f"font_ctor_g{g}", "fontctor.cpp", "vh_font_ctor", {"NG": g, "NS": 0}, unwind=g + 3, unwindset={"Font": g + 2, "vh_font_ctor": g + 2, "lid:ll_malloc_split": 4, "lid:ll_calloc_split": 4},
               cc_defs=[f"LL_MEM_CASES=0,{4 * g}"]) for g in (1, 2, 3)]
 @prop("C09")
